@@ -612,20 +612,21 @@ func (exec *Executor) executeDecimalMethod(
 	ratio := math.Pow10(scale)
 	rounded := math.Round(num*ratio) / ratio
 
-	// Count the digits before the decimal point.
-	numStr := strconv.FormatFloat(rounded, 'f', -1, 64)
-	count := 0
-	for _, ch := range numStr {
-		if ch == '.' {
-			break
-		}
-		if '1' <= ch && ch <= '9' {
+	// Count the digits before the decimal point; for a value below one,
+	// count down the zeros that follow the point instead.
+	numStr := strings.TrimPrefix(strconv.FormatFloat(rounded, 'f', -1, 64), "-")
+	intPart, fracPart, _ := strings.Cut(numStr, ".")
+	count := len(intPart)
+	if intPart == "0" {
+		count = 0
+		for count < len(fracPart) && fracPart[count] == '0' {
 			count++
 		}
+		count = -count
 	}
 
 	// Make sure it's got no more than precision digits.
-	if count > 0 && count > precision-scale {
+	if rounded != 0 && count > precision-scale {
 		return 0, fmt.Errorf(
 			`%w: argument "%v" of jsonpath item method %v is invalid for type %v`,
 			ErrVerbose, value, op, "numeric",
